@@ -1,3 +1,4 @@
+import Grexv.Lemmas.EndToEndRV
 import Grexv.Model.Format
 import Grexv.Lemmas.Presentation
 import Grexv.Lemmas.EndToEnd
@@ -132,7 +133,7 @@ theorem verbose_same_language (cfg : Config) (hp : PlainPrintCI cfg) (env : Env)
 `-r` whose settings agree in the thresholds, the class options and `-i` — they may differ in capturing groups, in `-e` and in which
 single anchor is disabled; plain printing; stored test cases of at most 1000 graphemes, one of them non-empty — return texts the model
 of `Regex::new` accepts, and the two compiled patterns match exactly the same strings of scalar values in full: each matches what the
-labels of the same minimised automaton spell (`C05.repetitions_language_exact`).  Verbose mode with `-r` is not covered by a theorem. -/
+labels of the same minimised automaton spell (`C05.repetitions_language_exact`).  Verbose mode with `-r`: `verbose_same_language_with_repetitions`. -/
 theorem presentation_same_language_with_repetitions (c1 c2 : Config) (hp1 : RepPrint c1) (hp2 : RepPrint c2)
     (hsame : SameClusterInputs c1 c2) (env : Env) (ws : List Str) (st1 st2 : Stages)
     (h1 : regExpFrom c1 env ws = .ok st1) (h2 : regExpFrom c2 env ws = .ok st2)
@@ -144,6 +145,28 @@ theorem presentation_same_language_with_repetitions (c1 c2 : Config) (hp1 : RepP
       Spec.fullMatch c1.ci P1 s = Spec.fullMatch c1.ci P2 s :=
   rep_presentation_same_language c1 c2 hp1 hp2 hsame env ws st1 st2 h1 h2 hseg
     (fun w hw => by have := hlen w hw; rwa [clusterOfPieces_eq, List.length_map] at this) hne s hs
+
+/-- **C06 with repetition conversion (verbose mode is presentation only — language level, all inputs, an anchor in place)** for `-r`
+with positive thresholds, every subset of the class options, with or without `-i`, capturing groups and `-e`: the verbose text is
+accepted by the model of `Regex::new` with the `x` flag set, the text without verbose mode is accepted without it, and the two compiled
+patterns match exactly the same strings of scalar values in full -/
+theorem verbose_same_language_with_repetitions (cfg : Config) (hp : RepPrint cfg) (env : Env) (ws : List Str) (stV st0 : Stages)
+    (hV : regExpFrom (withVerbR cfg true) env ws = .ok stV) (h0 : regExpFrom (withVerbR cfg false) env ws = .ok st0)
+    (hseg : ∀ w ∈ storedCases cfg env ws, SegOK env w)
+    (hlen : ∀ w ∈ storedCases cfg env ws, (clusterOfPieces (env.segOf w)).length ≤ 1000)
+    (hne : ∃ t ∈ storedCases cfg env ws, t ≠ []) (s : Str) (hs : ∀ c ∈ s, Scalar c) :
+    ∃ PV P0, Spec.parse (fmtRegExp (withVerbR cfg true) stV.finalAst) = some (⟨cfg.ci, true⟩, PV) ∧
+      Spec.parse (fmtRegExp (withVerbR cfg false) st0.finalAst) = some (⟨cfg.ci, false⟩, P0) ∧
+      Spec.fullMatch cfg.ci PV s = Spec.fullMatch cfg.ci P0 s :=
+  rep_verbose_same_language cfg hp env ws stV st0 hV h0 hseg
+    (fun w hw => by have := hlen w hw; rwa [clusterOfPieces_eq, List.length_map] at this) hne s hs
+
+/-- the verbose text of an expression with counted graphemes is parsed, under its `(?x)` flag, to the very pattern the non-verbose text
+is parsed to -/
+theorem verbose_parses_to_same_pattern_with_repetitions (cap esc i ns ne : Bool) (e : Expr) (hwf : e.WFR) :
+    Spec.parse (fmtRegExp (cfgVerb cap esc i ns ne) e) = some (⟨i, true⟩, Spec.catList (preA ns ++ (topItemsR cap esc e ++ postA ne))) ∧
+    Spec.parse (fmtRegExp (cfgAnch cap esc ns ne) e) = some (⟨false, false⟩, Spec.catList (preA ns ++ (topItemsR cap esc e ++ postA ne))) :=
+  ⟨parse_verboseR cap esc i ns ne e hwf, parse_printedAR cap esc ns ne e hwf⟩
 
 example : RepPrint { rep := true, word := true } ∧ RepPrint { rep := true, word := true, cap := true, esc := true, noEnd := true } ∧
     SameClusterInputs { rep := true, word := true } { rep := true, word := true, cap := true, esc := true, noEnd := true } :=
